@@ -222,7 +222,7 @@ UNITS += [
 
 # restore reads several blobs of one pack with ONE ranged read (PackInfo::coalesce over BlobLocations): the units live in
 # C02's spec (BlobLocations is shared with prune/copy) and are verified as part of this property's check as well
-SATELLITES = [("C02", ["blob_constants", "BlobLocation", "BlobLocations", "from_blob_location", "can_coalesce", "append", "coalesce", "PackToDo", "RepackReason", "PackInfo", "PrunePack", "CopyPackBlobs", "RestorePackInfo", "restore_packinfo_coalesce"])]
+SATELLITES = [("C02", ["blob_constants", "BlobLocation", "BlobLocations", "from_blob_location", "can_coalesce", "append", "coalesce", "PackToDo", "RepackReason", "PackInfo", "PrunePack", "CopyPackBlobs", "RestorePackInfo", "restore_packinfo_coalesce", "FileLocation", "restore_read_of_blob", "restore_needed_pack"])]
 
 META = {"not_covered": [
     "restore_contents outside its per-destination write task (thread pool, reading/decrypting the pack range, the unwrap()s), set_metadata, the closure process_node of collect_and_prepare, LocalDestination (syscalls; set_length/write_at/read_at are ASSUMED to behave as ftruncate/pwrite/pread)",
